@@ -139,9 +139,11 @@ def gen_case(rng, uid, force=None):
         sets.append({'fields': fields})
     if 'sets' not in force and (force.get('tp_str') or rng.random() < 0.03):   # F-C03c stream: a per-point string field
         sets[0]['fields'].append({'shape': 'TP', 'dtype': 'str', 'req': True})
-    layout = rng.choice(['single', 'single', 'assoc', 'mapped'])
+    layout = force.get('layout') or rng.choice(['single', 'single', 'assoc', 'mapped', 'mapped', 'saved'])
     ids = list(range(1, nsets + 1))
-    apart = sorted(rng.sample(ids, rng.randint(1, nsets))) if layout != 'single' else []
+    apart = sorted(rng.sample(ids, rng.randint(1, nsets))) if layout in ('assoc', 'mapped') else []
+    if layout == 'saved' and rng.random() < 0.5:         # save() of an in-memory store, with or without associated file
+        apart = sorted(rng.sample(ids, rng.randint(1, nsets)))
     # species: a pool with gaps for the whole store, then per field set a sub-pool for the first trajectory
     pool = sorted(rng.sample(range(NSPECIES), rng.choice([0, 1, 2, 2, 3, 3, 4, 5, 8])))
     if rng.random() < 0.3:
@@ -176,7 +178,9 @@ def gen_case(rng, uid, force=None):
     if out_of_dim:
         # a later trajectory carries a species that has no place in the store's species dimension
         extra = rng.choice([s for s in range(NSPECIES) if s not in pool])
-        for i in ids:
+        # (for a mapped store preferably in a field set that create_associated writes: trajectory k > 0 of the mapping
+        #  then has a species the first mapped result lacked)
+        for i in sorted(ids, key=lambda x: (not (layout == 'mapped' and x in apart), x)):
             for k, fld in enumerate(sets[i - 1]['fields']):
                 if fld['shape'] in ('TS', 'TSP', 'TSM') and used[i]:
                     # (only where the first trajectory gave the file a species dimension at all: with an empty one
@@ -191,7 +195,7 @@ def gen_case(rng, uid, force=None):
                     v = {**v, **one}
                     trajs[-1]['vals'][str(i)][k] = v
                     return {'uid': uid, 'fs_uid': force.get('fs_uid', uid), 'sets': sets, 'layout': layout,
-                            'apart': apart, 'trajs': trajs, 'out_of_dim': True}
+                            'apart': apart, 'trajs': trajs, 'out_of_dim': True, 'ood_set': i}
     return {'uid': uid, 'fs_uid': force.get('fs_uid', uid), 'sets': sets, 'layout': layout, 'apart': apart,
             'trajs': trajs, 'out_of_dim': False}
 
@@ -523,6 +527,8 @@ def run_case_impl(case, tmp: Path) -> CaseRun:
     kwargs = {'base_file': base_path}
     if layout == 'assoc':
         kwargs['associated_files'] = [(apart_path, [names[i] for i in apart])]
+    if layout == 'saved':
+        kwargs = {}                          # an in-memory store, persisted afterwards with save()
     ts = TrajectoryStore.create(**kwargs)
     try:
         for k, t in enumerate(trajs):
@@ -534,6 +540,17 @@ def run_case_impl(case, tmp: Path) -> CaseRun:
                 return run
             if k == 0:
                 run.worder = order(ts)
+        if layout == 'saved':
+            try:
+                ts.save(base_path, [(apart_path, [names[i] for i in apart])] if apart else None)
+            except BaseException as e:  # noqa: BLE001
+                import re
+                m = re.search(r'at index (\d+)', str(e))
+                run.worder = order(ts)
+                run.outcome = ['Refused', 1, int(m.group(1)) if m else 0, err_class(e),
+                               f'save: {type(e).__name__}: {e}'[:300]]
+                return run
+            run.worder = order(ts)
     finally:
         try:
             ts.close()
@@ -579,7 +596,7 @@ def run_case_impl(case, tmp: Path) -> CaseRun:
 
     # ---- reopen and read everything back ----------------------------------------------------------
     kwargs = {'base_file': base_path}
-    if layout != 'single':
+    if apart:
         kwargs['associated_files'] = [apart_path]
     try:
         ts = TrajectoryStore.open(**kwargs)
@@ -680,8 +697,11 @@ def coq_case(case, run: CaseRun, fixed: bool) -> str:
     bf = base_fields()
     sc = [[f for _, f in bf]] + [fs['fields'] for fs in case['sets']]
     schema = '[' + '; '.join('[' + '; '.join(coq_meta(f) for f in fs) + ']' for fs in sc) + ']'
+    # save() of an in-memory store creates the files from the first trajectory and writes every trajectory through
+    # the same _write_trajectory / _write_to_nc_var as add(): in the model it IS the single-file / base+associated case
     ly = {'single': 'Single', 'assoc': f'(Assoc {coq_natlist(case["apart"])})',
-          'mapped': f'(Mapped {coq_natlist(case["apart"])})'}[case['layout']]
+          'mapped': f'(Mapped {coq_natlist(case["apart"])})',
+          'saved': f'(Assoc {coq_natlist(case["apart"])})' if case['apart'] else 'Single'}[case['layout']]
     ts = '[' + '; '.join('[' + '; '.join('[' + '; '.join(coq_fval(c) for c in w[str(i)]) + ']'
                                            for i in range(len(sc))) + ']' for w in run.written) + ']'
     return (f'run_case {"true" if fixed else "false"} {schema} {ly} {coq_natlist(run.worder)} '
